@@ -56,6 +56,10 @@ def analyse(program):
             rules.append(Purge(self_box, closures))
         elif fn is not adopt and fn is not unadopt:
             rules.append(Purge(self_box, closures, kind, name))
+        if fn is not adopt and fn is not unadopt and kind == "api" and 1 in hb and 2 in hb and hb[1][0] == "Rc" and hb[2][0] == "Rc" \
+                and fn.locals[1]["ty"].get("peel", 0) == 1 and fn.locals[2]["ty"].get("peel", 0) == 1:
+            from rules_api import LoopbackSelect
+            rules.append(LoopbackSelect(name, hb))
         if name in ("Weak::strong_count", "Weak::weak_count", "Rc::strong_count", "Rc::weak_count"):
             rules.append(Getters(name, self_box))
         if not fn.f.get("impl_trait") and (name.startswith("Rc::") or name.startswith("Weak::")):
